@@ -92,6 +92,29 @@ def builtin_packages(ctx):
             out.append((f"{tag}:{n}", mk))
     out.append(("wrapper_unit", lambda: Wrapper(Unit)))
     out.append(("wrapper_ext", lambda: Wrapper(E())))
+    # objects whose kind changes after they were added: a signal promoted to a port (and back), re-added under its name
+    def promoted(demote):
+        from hdl21.signal import Visibility, PortDir
+
+        def mk():
+            inner = h.Module(name="Promoted" + ("D" if demote else ""))
+            inner.inp = h.Input(width=2)
+            out_ = inner.add(h.Signal(name="out", width=2))
+            inner.r = h.R(r=1)(p=inner.inp[0], n=out_[0])
+            out_.vis = Visibility.PORT
+            out_.direction = PortDir.OUTPUT
+            inner.add(out_)
+            if demote:
+                inner.inp.vis = Visibility.INTERNAL
+                inner.inp.direction = PortDir.NONE
+                inner.add(inner.inp)
+            top = h.Module(name="PromTop" + ("D" if demote else ""))
+            top.a, top.b = h.Signal(width=2), h.Signal(width=2)
+            top.i = inner(out=top.b) if demote else inner(inp=top.a, out=top.b)
+            return top
+        return mk
+    out.append(("promoted_signal", promoted(False)))
+    out.append(("promoted_and_demoted", promoted(True)))
     return out
 
 
